@@ -4,7 +4,7 @@
 From Coq Require Import List NArith.
 From AL Require Import Base.Corr Glob.Glob.
 Import ListNotations.
-Open Scope N_scope.
+Local Open Scope N_scope.
 
 Definition cls_code (k : dclass) : N :=
   match k with
